@@ -216,6 +216,74 @@ pub fn clauses() -> Vec<Clause> {
     ]
 }
 
+/// lerp spelled with method syntax on the concrete type and through the trait
+/// (`VectorSpace::lerp(a, b, t)`), on f32 and f64 vectors, quaternions and matrices, for amounts
+/// inside and outside [0,1]: both spellings give the same bits and the value a + (b - a) t.
+pub fn native_lerp_spellings(cfg: &cgv_core::fw::RunCfg, extra: &mut cgv_core::fw::Extra) {
+    use cgmath::{Matrix2, Matrix3, Matrix4, Vector1, Vector2, Vector3, Vector4, VectorSpace};
+    use cgv_core::acc::Acc;
+    use cgv_core::bits::Bits;
+    use serde_json::json;
+    let n = if cfg.tier == Tier::Quick { 1500 } else { 100_000 };
+    let mut acc = Acc::new("c14_lerp_method_vs_trait");
+    for i in 0..n {
+        let mut rng = Rng::for_case(cfg.seed, "c14_native_lerp", i);
+        let ra: [f64; 16] = std::array::from_fn(|_| rng.uniform(-4.0, 4.0));
+        let rb: [f64; 16] = std::array::from_fn(|_| rng.uniform(-4.0, 4.0));
+        let t = match rng.below(8) {
+            0 => 0.0,
+            1 => 1.0,
+            2 => rng.pick(&[1.5, -0.5, 2.0, -1.0, 3.0]),
+            3 => rng.uniform(-2.0, 3.0),
+            _ => rng.uniform(0.0, 1.0),
+        };
+        let inputs = || json!({"a": ra, "b": rb, "t": t, "index": i});
+        acc.case(if (0.0..=1.0).contains(&t) { "amount in [0,1]" } else { "amount outside [0,1]" });
+        macro_rules! one {
+            ($T:ty, $name:expr, $mk:expr) => {{
+                let mk = $mk;
+                let (a, b) = (mk(&ra), mk(&rb));
+                let tt = t as $T;
+                let tag = concat!($name, "<", stringify!($T), ">");
+                let m = a.lerp(b, tt);
+                let tr = VectorSpace::lerp(a, b, tt);
+                acc.truth(&format!("{tag}: a.lerp(b, t) differs from VectorSpace::lerp(a, b, t)"), m.bits() == tr.bits(), &inputs);
+                let want = a + (b - a) * tt;
+                let (mb, wb) = (m.bits(), want.bits());
+                for (k, (x, y)) in mb.iter().zip(wb.iter()).enumerate() {
+                    let (x, y) = (<$T>::from_bits(*x as _) as f64, <$T>::from_bits(*y as _) as f64);
+                    acc.check(&format!("{tag}: lerp(a, b, {t}) component {k} vs a + (b - a) t"), x, y, 16.0 * (<$T>::EPSILON as f64) * (8.0 + 8.0 * t.abs()), &inputs);
+                }
+            }};
+        }
+        macro_rules! both {
+            ($T:ty) => {{
+                one!($T, "Vector1", |r: &[f64; 16]| Vector1::new(r[0] as $T));
+                one!($T, "Vector2", |r: &[f64; 16]| Vector2::new(r[0] as $T, r[1] as $T));
+                one!($T, "Vector3", |r: &[f64; 16]| Vector3::new(r[0] as $T, r[1] as $T, r[2] as $T));
+                one!($T, "Vector4", |r: &[f64; 16]| Vector4::new(r[0] as $T, r[1] as $T, r[2] as $T, r[3] as $T));
+                one!($T, "Quaternion", |r: &[f64; 16]| Quaternion::new(r[0] as $T, r[1] as $T, r[2] as $T, r[3] as $T));
+                one!($T, "Matrix2", |r: &[f64; 16]| Matrix2::new(r[0] as $T, r[1] as $T, r[2] as $T, r[3] as $T));
+                one!($T, "Matrix3", |r: &[f64; 16]| Matrix3::new(r[0] as $T, r[1] as $T, r[2] as $T, r[3] as $T, r[4] as $T, r[5] as $T, r[6] as $T, r[7] as $T, r[8] as $T));
+                one!($T, "Matrix4", |r: &[f64; 16]| Matrix4::new(
+                    r[0] as $T, r[1] as $T, r[2] as $T, r[3] as $T, r[4] as $T, r[5] as $T, r[6] as $T, r[7] as $T,
+                    r[8] as $T, r[9] as $T, r[10] as $T, r[11] as $T, r[12] as $T, r[13] as $T, r[14] as $T, r[15] as $T));
+            }};
+        }
+        both!(f32);
+        both!(f64);
+        if acc.failed() {
+            break;
+        }
+    }
+    acc.finish(extra, "bit equality of a.lerp(b,t) and VectorSpace::lerp(a,b,t) on concrete types; value a + (b - a) t within 16 eps of the operand scale");
+}
+
+pub fn native_all(cfg: &cgv_core::fw::RunCfg, extra: &mut cgv_core::fw::Extra) {
+    native(cfg, extra);
+    native_lerp_spellings(cfg, extra);
+}
+
 pub const RULE: &str = "lerp: 16 + 16 small rationals reused as Vector1-4, Quaternion and Matrix2-4 operands, amount t in {0,1,1/2} or a small rational (extrapolation included). nlerp/slerp: a = exact rational unit quaternion, b = +-(a*g) with g = (w, sqrt(1-w^2)*axis) so that a.b = +-w; class 0 w uniform in [0,0.999], class 1 ladder 0.9995 +- r*4*10^-4..-12 on both sides of the slerp threshold, class 2 w in {1, 1-10^-k, 0, 10^-k, 0.5}; t in {0,1,0.5} or uniform on a 2^-20 grid. Non-trivial = 0<w<1 and 0<t<1; distinct = distinct input tuples.";
 pub const ASSUME: &[&str] = &[
     "enclosure arithmetic as in C06; arc angles are measured with 2*atan2(|p-q|,|p+q|), which is well conditioned for all pairs of unit quaternions",
@@ -268,7 +336,13 @@ pub fn native(cfg: &cgv_core::fw::RunCfg, extra: &mut cgv_core::fw::Extra) {
                     let mut w = 0f64;
                     let d = |p: Quaternion<$T>, q: Quaternion<$T>| (p - q).magnitude() as f64;
                     for slerp in [false, true] {
-                        let f = |t: $T| if slerp { a.slerp(b, t) } else { a.nlerp(b, t) };
+                        // every call is preceded by a decoy call with the same target and amount but a
+                        // different start: a result must not depend on what was interpolated before
+                        let decoy = (Quaternion::new(0.6 as $T, 0.48 as $T, 0.64 as $T, 0.0 as $T) * a).normalize();
+                        let f = |t: $T| {
+                            let _ = if slerp { decoy.slerp(b, t) } else { decoy.nlerp(b, t) };
+                            if slerp { a.slerp(b, t) } else { a.nlerp(b, t) }
+                        };
                         w = w.max(d(f(0.0), a)).max(d(f(1.0), bp));
                         for t in [0.0, 0.25, 0.5, 1.0] {
                             w = w.max((f(t).magnitude() as f64 - 1.0).abs());
